@@ -1208,6 +1208,11 @@ func (r *Reader) start(offsetsByPartition map[topicPartition]int64) {
 	r.version++
 	verifPoint("reader.start")
 
+	// The version is captured here, under the mutex held by the caller: the
+	// goroutines started below run after it was released, when another call
+	// to start may already have changed it.
+	version := r.version
+
 	r.join.Add(len(offsetsByPartition))
 	for key, offset := range offsetsByPartition {
 		go func(ctx context.Context, key topicPartition, offset int64, join *sync.WaitGroup) {
@@ -1226,7 +1231,7 @@ func (r *Reader) start(offsetsByPartition map[topicPartition]int64) {
 				readBatchTimeout: r.config.ReadBatchTimeout,
 				backoffDelayMin:  r.config.ReadBackoffMin,
 				backoffDelayMax:  r.config.ReadBackoffMax,
-				version:          r.version,
+				version:          version,
 				msgs:             r.msgs,
 				stats:            r.stats,
 				isolationLevel:   r.config.IsolationLevel,
